@@ -188,6 +188,9 @@ def map_failure(res: GenResult, d: dict, msg: str, spans: List[dict]) -> Failure
     else:
         oid = 'B:%s:%s' % (short(owner.addr), kind)
         tags = list(owner.tags)
+        bt = getattr(owner, 'bodytags', {}).get(kind)
+        if bt:
+            oid, tags = bt[0], list(bt[1])
         src_file, src_line = (lm.get('f', owner.src_file), lm.get('l', owner.src_line)) if lm.get('o') == 'src' \
             else (owner.src_file, owner.src_line)
         if lm.get('o') in ('proof', 'clause'):
